@@ -117,12 +117,12 @@ def reach_from(F, entries, stop=()):
             add(b, "entry")
     while todo:
         b = todo.pop()
-        for a in b.aggregates:
+        for a in b.aggregates_raw:
             if a["kind"] in ("closure", "coroutine", "coroutine_closure"):
                 t = F.body(a["adt"])
                 if t is not None:
                     add(t, "closure of " + b.npath)
-        for c in b.calls:
+        for c in b.calls_raw:
             nc = c["ncallee"]
             if nc and _pm(nc, stop):
                 continue
@@ -258,7 +258,7 @@ def _overflow_bounded(F, body, a):
 def panic_sites(F, body):
     """Candidate panic-capable sites of one body: list of dicts(kind, shape, line, bb, mac)."""
     out = []
-    for a in body.asserts:
+    for a in body.asserts_raw:
         if a["kind"].startswith("ResumedAfter"):
             continue
         if a["ops"] and all(_const_operand(o) for o in a["ops"]):
@@ -267,7 +267,7 @@ def panic_sites(F, body):
             continue  # operands widened from a narrower unsigned type: cannot overflow
         out.append({"kind": "assert:" + a["kind"], "shape": ",".join("const" if _const_operand(o) else "var" for o in a["ops"]),
                     "line": a["line"], "bb": a["bb"], "mac": a.get("mac"), "ops": a["ops"]})
-    for c in body.calls:
+    for c in body.calls_raw:
         nc, ng = c["ncallee"], c["ngen"]
         hit = None
         if c.get("mac") in LOG_MACROS:
